@@ -17,6 +17,15 @@ CHECKS = [
   'merely incomplete; elsewhere only inside the same bracketed literal). Holds for strings of every length because the product is '
   'finite; the abstraction is exact for control or the run aborts (exit 2). quick: single-URI/custom-manager entry for char and '
   'wchar_t plus the other five entry forms for char; thorough: all 12 entry/type combinations.'),
+ ('C02', 'other', 'abstract interpretation of the parser source in product with indicator / pebbled automata compiled from the ABNF',
+  'For ALL inputs (quick and thorough): every accepting final configuration of the parser automaton agrees with indicator automata '
+  'derived from the ABNF on presence vs absence of every component (hence absent vs empty), host kind blocks, absolute-path flag, '
+  'segment presence, head/tail pairing; IPv4 recogniser language = IPv4address and its call sites; address bytes for every IPv6 '
+  'shape and every digit / octet value (evaluated from source); push shape. Exact boundaries: quick evaluates the parser from source '
+  'on ~4000 references covering all component-shape combinations against the positions the pebbled automata assign (an enumerated '
+  'family, not all inputs); thorough explores, for ALL inputs, one product per boundary with its pebbled automaton (register exactly '
+  'at the grammar position whenever the component is present). Level "other" because the quick tier does not prove the boundaries '
+  'for all inputs.'),
  ('C03', 'proof', 'abstract interpretation of the parser source (same automaton as C01) + release-function rules',
   'On the exhaustive E1 exploration: no dereference that is not preceded on its path by a comparison with afterLast answering '
   '"inside" (so nothing at or beyond afterLast is read, look-ahead and IPv6/IPv4 loops included); no store into the input; every '
@@ -80,7 +89,6 @@ CHECKS = [
 ]
 
 NA = [
- ('C02', 'check not built yet in this session (see DESIGN.md)'),
  ('C09', 'a relation between two operations over all (reference, base) pairs whose truth rests on the dot-segment list algorithm; '
          'no clause is visible in the shape of the code (DESIGN.md section 4 C09, section 5)'),
  ('C18', 'round trip between two string loops plus an amortised size formula; outside what the static domains here can express '
